@@ -35,11 +35,11 @@ Shape(raw) ==
   ELSE "dot-element"
 ToPath(raw) == IF raw = <<".">> THEN << >> ELSE raw
 
-\* fixture: a directory, files, and elements whose names contain separator look-alikes
+\* fixture: a directory, files, and elements whose names contain separator look-alikes or begin like ".." (valid names)
 Fixture ==
   (<< >> :> F!RootNode) @@ (<<"a">> :> F!Node("dir", 493, "*", << >>)) @@ (<<"f">> :> F!Node("file", 420, "*", <<1>>))
   @@ (<<"a", "f">> :> F!Node("file", 384, "*", <<2>>)) @@ (<<"a\\b">> :> F!Node("file", 420, "*", <<3>>))
-  @@ (<<"a", "c:d">> :> F!Node("file", 448, "*", <<4, 4>>))
+  @@ (<<"a", "c:d">> :> F!Node("file", 448, "*", <<4, 4>>)) @@ (<<"..x">> :> F!Node("file", 420, "*", <<5>>))
 
 Flag(acc, c, x, tr, ap) == [acc |-> acc, c |-> c, x |-> x, tr |-> tr, ap |-> ap]
 NoFlag == Flag("RO", FALSE, FALSE, FALSE, FALSE)
